@@ -104,6 +104,12 @@ type Manager struct {
 	nextPollTime   time.Time
 	pollTimer      *time.Timer
 
+	// wakeGen counts completed Wake transitions (guarded by stateMu). Poll
+	// remembers the value it started under; a poll that finds a different
+	// value was overtaken by a Wake (possibly followed by a new Sleep) and
+	// must not run callbacks or touch state, timers or the state file.
+	wakeGen uint64
+
 	// Deterministic windows
 	localID    identity.AgentID
 	windowCalc *WindowCalculator
@@ -320,6 +326,7 @@ func (m *Manager) Wake() error {
 
 	// Update state
 	m.state.Store(StateAwake)
+	m.wakeGen++
 	sleepDuration := time.Since(m.sleepStartTime)
 	m.sleepStartTime = time.Time{}
 	m.nextPollTime = time.Time{}
@@ -357,10 +364,17 @@ func (m *Manager) Poll() error {
 	// Transition to polling
 	m.state.Store(StatePolling)
 	m.lastPollTime = time.Now()
+	gen := m.wakeGen
 	m.stateMu.Unlock()
 
 	m.logger.Debug("starting poll")
 	verifhook.Point("sleep.poll_before_onpoll", m)
+
+	// The lock is not held while the callback runs (it may call Wake), so a
+	// Wake can complete before we get here: do not reconnect in that case.
+	if !m.pollIsCurrent(gen) {
+		return nil
+	}
 
 	// Call poll callback
 	if m.callbacks.OnPoll != nil {
@@ -380,8 +394,10 @@ func (m *Manager) Poll() error {
 	m.stateMu.Lock()
 	defer m.stateMu.Unlock()
 
-	// Check if we were woken during poll
-	if m.state.Load().(State) == StateAwake {
+	// Check if we were woken during poll. Comparing the state alone is not
+	// enough: after Wake+Sleep the state is SLEEPING/POLLING again, but it
+	// belongs to the new sleep, which has its own timer and polls.
+	if m.wakeGen != gen || m.state.Load().(State) == StateAwake {
 		return nil
 	}
 
@@ -409,6 +425,14 @@ func (m *Manager) Poll() error {
 		"next_poll", m.nextPollTime.Format(time.RFC3339))
 
 	return nil
+}
+
+// pollIsCurrent reports whether no Wake completed since the poll that
+// captured gen started.
+func (m *Manager) pollIsCurrent(gen uint64) bool {
+	m.stateMu.RLock()
+	defer m.stateMu.RUnlock()
+	return m.wakeGen == gen
 }
 
 // GetState returns the current sleep state.
